@@ -467,6 +467,10 @@ class StmtMixin:
             return [('ok', st, IterState('seq', seq=v.v, idx=z3.IntVal(0)))]
         if v.k == 'iterstate':
             return [('ok', st, v.v)]
+        if v.k == 'str':
+            c = z3.simplify(v.v)
+            if z3.is_string_value(c):        # iterating a literal string: its characters, one by one
+                return [('ok', st, IterState('static', items=[sv_str(ch) for ch in c.as_string()], idx=0))]
         if v.k == 'ref':
             if v.t == 'list':
                 return [('ok', st, IterState('list', ref=v, idx=z3.IntVal(0)))]
@@ -663,7 +667,7 @@ class StmtMixin:
                 return self.unroll(node, st, module, its, bind, body, orelse, 0, limit=self.cfg.unroll_while[(self.cur_func_name, ordinal)])
             raise NeedLoopContract('loop %s of %s (line %d) needs a contract' % (ordinal, self.cur_func_name, node.lineno))
         mode = lc['mode']
-        if mode == 'summary' and its.kind == 'static' and len(its.items) - its.idx <= 8:
+        if mode == 'summary' and its.kind == 'static' and len(its.items) - its.idx <= 16:
             return self.unroll(node, st, module, its, bind, body, orelse, 0)       # a statically known, short iteration is executed exactly
         if mode == 'summary':
             return self.loop_summary(node, st, module, its, bind, body, orelse, lc, ordinal)
